@@ -32,7 +32,16 @@ pub fn adjust(cfg: &mut SwarmCfg, tier: &str, r: &mut Prng) {
             setw(cfg, "stale_commit", 3);
             setw(cfg, "send_app", 14);
             setw(cfg, "propose", 10);
+            setw(cfg, "nm_propose", 4);
             cfg.n_parties = cfg.n_parties.min(6);
+            if !cfg.encrypt_handshake && r.chance(1, 3) {
+                // two groups among the same parties: messages of one are offered to members of the other
+                cfg.scenario = "two-groups".into();
+                cfg.knobs.push(("groups".into(), 2));
+                cfg.faults.push("N-XGROUP".into());
+                setw(cfg, "xgroup", 10);
+                setw(cfg, "nm_propose", 8);
+            }
         }
         "C04" => {
             cfg.oracles = sv(&["agreement", "state-unchanged", "modified-rejected"]);
@@ -47,9 +56,17 @@ pub fn adjust(cfg: &mut SwarmCfg, tier: &str, r: &mut Prng) {
             setw(cfg, "stale_commit", 6);
             setw(cfg, "send_app", 14);
             setw(cfg, "propose", 10);
+            setw(cfg, "nm_propose", 3);
             setw(cfg, "crash", 0);
             cfg.storage = *r.pick(&[StorageKind::Mem, StorageKind::Mem, StorageKind::Sql]);
             cfg.n_parties = cfg.n_parties.min(6);
+            if !cfg.encrypt_handshake && r.chance(1, 4) {
+                cfg.scenario = "two-groups".into();
+                cfg.knobs.push(("groups".into(), 2));
+                cfg.faults.push("N-XGROUP".into());
+                setw(cfg, "xgroup", 10);
+                setw(cfg, "nm_propose", 8);
+            }
             if r.chance(1, 3) {
                 // provider errors surfaced from identity validation: one sampled call index per operation
                 cfg.scenario = "identity-faults".into();
@@ -272,6 +289,7 @@ pub fn adjust(cfg: &mut SwarmCfg, tier: &str, r: &mut Prng) {
             setw(cfg, "commit", 18);
             setw(cfg, "propose", 18);
             setw(cfg, "forge", 10);
+            setw(cfg, "nm_propose", 4);
             setw(cfg, "update_clash", 3);
             setw(cfg, "deliver", 14);
             setw(cfg, "crash", 0);
@@ -342,6 +360,12 @@ pub fn extra_kinds(w: &World, kinds: &mut Vec<(&'static str, u32)>) {
     }
     if w.cfg.weight("x509_case") > 0 {
         kinds.push(("x509_case", w.cfg.weight("x509_case")));
+    }
+    if w.cfg.weight("nm_propose") > 0 && !w.live_members(g).is_empty() {
+        kinds.push(("nm_propose", w.cfg.weight("nm_propose")));
+    }
+    if w.cfg.weight("xgroup") > 0 && w.groups.len() >= 2 {
+        kinds.push(("xgroup", w.cfg.weight("xgroup")));
     }
     if w.cfg.weight("update_clash") > 0 && g == 0 && w.live_members(g).len() >= 3 {
         kinds.push(("update_clash", w.cfg.weight("update_clash")));
@@ -473,6 +497,18 @@ pub fn extra_action(w: &mut World, kind: &str) -> Option<Action> {
                 m,
             })
         }
+        "nm_propose" => Some(Action::Special {
+            kind: "nm_propose".into(),
+            a: w.prng.usize_below(w.parties.len()) as u64,
+            b: g as u64,
+            c: 0,
+        }),
+        "xgroup" => Some(Action::Special {
+            kind: "xgroup".into(),
+            a: w.prng.usize_below(w.parties.len()) as u64,
+            b: w.prng.below(64),
+            c: 0,
+        }),
         "x509_case" => Some(Action::Special {
             kind: "x509_case".into(),
             a: w.prng.next_u64() >> 16,
